@@ -147,7 +147,8 @@ CLAIMED = {
              "graph optimisation/fusion; checkpoint computes to None only after every chunk function ran; "
              "clone computes to the same values with disjoint output keys, independent execution (both copies "
              "run when computed together) and omit respected; values equal the unmanipulated collections.",
-        note="array/bag/delayed collections only (dataframe needs pyarrow); chunk executions atomic under E1, "
+        note="array/bag/delayed collections, plus dataframes through the pyarrow import stub (bind/clone/wait_on "
+             "on dataframes raise: two open known findings; checkpoint works); chunk executions atomic under E1, "
              "so the order relation is between whole chunk executions.",
         ref="DESIGN.md §4 C16"),
     "C14": dict(
@@ -158,7 +159,8 @@ CLAIMED = {
              "value of its eager twin, identically for every scheduler choice, simulated completion schedule "
              "and optimize_graph setting; persist/optimize must return the same structure with collections of "
              "the same type and metadata that compute (under yet another schedule) to the same values.",
-        note="dataframe collections are not generated (pyarrow absent); iterators are single-use so structures "
+        note="dataframe collections (expression-backed, mixed with graph-backed ones) run through the pyarrow "
+             "import stub, parquet/arrow strings cannot; iterators are single-use so structures "
              "holding one are computed once; tasks atomic under E1.",
         ref="DESIGN.md §4 C14"),
     "C48": dict(
